@@ -315,6 +315,12 @@ func ruleC13Lock(r *Run, p *Program, rule string) {
 	if !r.anchor(rule, "syscall.Flock call in createLockFile", flock != nil) {
 		return
 	}
+	// the lock file is opened without O_TRUNC/O_EXCL/O_APPEND tricks: an opener that is about to lose must not have
+	// modified the owner's file by merely opening it
+	for _, o := range opens {
+		fl, isc := constInt(o.Call.Args[1])
+		r.check(isc && fl&0x200 == 0, rule, "fs.createLockFile[unix]:open-flags", p.Pos(o.Pos()), "the lock file is opened without O_TRUNC", fmt.Sprintf("the lock file is opened with flags %#x including O_TRUNC: a competing Open empties the live owner's lock file before it fails with the locked error (a failed Open changes the directory)", fl))
+	}
 	// exclusive, non-blocking
 	how, _ := constInt(flock.Call.Args[1])
 	r.check(how&2 != 0 && how&4 != 0, rule, "fs.createLockFile[unix]:flock-mode", p.Pos(flock.Pos()), "flock(LOCK_EX|LOCK_NB)", fmt.Sprintf("flock is called with mode %d: the lock must be exclusive (LOCK_EX) and non-blocking (LOCK_NB)", how))
